@@ -3,3 +3,4 @@ import RainModel.Model.Blocks
 import RainModel.Model.Request
 import RainModel.Model.Cache
 import RainModel.Model.CachedPiece
+import RainModel.Model.WriteQueue
